@@ -578,6 +578,8 @@ pub struct World {
     pub timer_count: HashMap<usize, usize>,
     pub store: Vec<Option<HEnt>>,
     pub joins: Vec<Option<(usize, AnyJoin)>>,
+    /// join future id -> the operation that polled it and is still pending
+    pub join_pending: std::collections::HashMap<usize, usize>,
     pub streams: HashMap<usize, Arc<Mutex<StreamCtl>>>,
     pub svc: Vec<Spec>,
     pub ended: bool,
